@@ -166,11 +166,13 @@ struct Outcome {
 };
 
 int g_errno_before_load = 0; // ambient state of the loading thread (set per dump)
-Outcome try_load(int reader, const Bytes &data, size_t start, size_t limit, int getbuf, int exc, long throw_refill, size_t budget, bool seekable = false, unsigned prestate = 0)
+Outcome try_load(int reader, const Bytes &data, size_t start, size_t limit, int getbuf, int exc, long throw_refill, size_t budget, bool seekable = false, unsigned prestate = 0,
+                 bool keep_accounting = false)
 {
     Outcome out;
     const SlotOps &o = ops_of(reader);
-    alloc::begin_run();
+    if (!keep_accounting)
+        alloc::begin_run();
     void *mem = raw_alloc(o);
     SimIStreamBuf sb(data, start, limit, (size_t)getbuf, throw_refill, seekable);
     sb.refill_budget = budget;
@@ -279,9 +281,15 @@ std::string run_case(Ctx &cx, const Prepared &p, const Case &c, std::string &det
     size_t budget = 20 * (p.file.size() / (size_t)std::max(p.d.getbuf, 1) + 8);
     Outcome out = try_load(reader, *data, p.start, limit, p.d.getbuf, p.d.exc, thr, budget, p.d.seek != 0, prestate);
     if (out.leak) {
-        // one-time allocations (lazily built tables, immortal caches) are not leaks: only
-        // residue that comes back when the same case is repeated counts
-        out = try_load(reader, *data, p.start, limit, p.d.getbuf, p.d.exc, thr, budget, p.d.seek != 0, prestate);
+        // One-time allocations (lazily built tables, immortal caches) and single instances
+        // that are replaced (a "last error" string) are not leaks: only residue that keeps
+        // GROWING when the same case is repeated, without forgetting the earlier blocks, is.
+        Outcome o2 = try_load(reader, *data, p.start, limit, p.d.getbuf, p.d.exc, thr, budget, p.d.seek != 0, prestate, true);
+        size_t l2 = alloc::live_blocks();
+        out = try_load(reader, *data, p.start, limit, p.d.getbuf, p.d.exc, thr, budget, p.d.seek != 0, prestate, true);
+        size_t l3 = alloc::live_blocks();
+        out.leak = l3 > l2;
+        (void)o2;
         if (!out.leak)
             cx.cnt.inc("observed.one_time_allocation_kept_by_the_library");
     }
